@@ -61,6 +61,8 @@ sub vcl_recv {
   declare local var.s STRING;
   declare local var.i INTEGER;
   set var.s = "a" req.http.X-Req;
+  set var.i = -9223372036854775808;
+  log "min " var.i;
   set var.i = 3;
   set var.i += 4;
   set req.http.Foo = var.s + "b" var.i;
@@ -153,6 +155,7 @@ func parses(src string) bool {
 func gen09(tier string, emit func(Case)) {
 	thorough := tier == "thorough"
 	genRejected(emit)
+	genAnnotated(emit)
 	type prog struct {
 		root *gen.Node
 		kind string
@@ -217,6 +220,26 @@ func gen09(tier string, emit func(Case)) {
 						emit(Case{Base: base, Variant: v, Exec: p.exec, Must: mi && mj, Where: wi + " & " + wj, Deco: a.name + "+" + b.name, Prog: p.kind, Singles: []string{s1, s2}})
 					}
 				}
+			}
+		}
+	}
+}
+
+// genAnnotated: an ordinary comment next to an annotation comment (@scope) must not change how the annotation is read.
+// The base program carries the annotation alone; variants add one comment before or after it, in each marker style.
+func genAnnotated(emit func(Case)) {
+	progs := []struct{ name, pre, ann, post string }{
+		{"annotated-sub", "sub vcl_recv {\n  #FASTLY recv\n  call set_marker;\n}\n", "@scope: deliver", "sub set_marker {\n  set resp.http.X-Marker = \"1\";\n}\n"},
+		{"annotated-sub-two-scopes", "", "@scope: recv, deliver", "sub both {\n  set req.http.X = \"1\";\n}\nsub vcl_recv {\n  #FASTLY recv\n  call both;\n}\n"},
+		{"annotated-unused-sub", "", "@scope: fetch", "sub only_fetch {\n  set beresp.ttl = 1s;\n}\n"},
+	}
+	for _, p := range progs {
+		for _, m := range []string{"//", "#"} {
+			base := p.pre + m + " " + p.ann + "\n" + p.post
+			for _, c := range []string{"// c", "# c", "/* c */", "/** c **/", "// c\n// d"} {
+				emit(Case{Base: base, Variant: p.pre + c + "\n" + m + " " + p.ann + "\n" + p.post, Must: true, Where: "before-annotation", Deco: "comment", Prog: p.name})
+				emit(Case{Base: base, Variant: p.pre + m + " " + p.ann + "\n" + c + "\n" + p.post, Must: true, Where: "after-annotation", Deco: "comment", Prog: p.name})
+				emit(Case{Base: base, Variant: p.pre + c + "\n" + m + " " + p.ann + "\n" + c + "\n" + p.post, Must: true, Where: "around-annotation", Deco: "comment", Prog: p.name})
 			}
 		}
 	}
@@ -432,7 +455,7 @@ func init() {
 	engine.Register(engine.Spec[Case]{
 		ID:    "C09",
 		Level: "exploration",
-		Rule: "base programs = every statement/declaration derivation within 1 deviation (lint half) + 4 executable lifecycle programs (incl. ID-typed function arguments, a non-literal regex pattern, hash and client directors) (simulator half, 11 requests each through ServeHTTP with a stub backend); variants = each of 10 decorations (/* c */, # c, // c, /** c **/, /* c **/, /**/, a multi-line block comment, blank lines, tab+spaces, newline) in every gap between two consecutive tokens, one gap at a time (thorough / executable programs: pairs of gaps within a statement); a variant at a documented placeholder must parse; 2 programs the parser refuses (duplicate case labels) must stay refused with a comment at any placeholder; elsewhere an unparseable variant is skipped; oracle: multiset of (rule, severity, message) and the fatal error equal to the base program's, and flows/logs/restarts/response identical; non-trivial = variant parses and differs from base; distinct = distinct (base, variant)",
+		Rule: "base programs = every statement/declaration derivation within 1 deviation (lint half) + 4 executable lifecycle programs (incl. ID-typed function arguments, a non-literal regex pattern, hash and client directors) (simulator half, 11 requests each through ServeHTTP with a stub backend); variants = each of 10 decorations (/* c */, # c, // c, /** c **/, /* c **/, /**/, a multi-line block comment, blank lines, tab+spaces, newline) in every gap between two consecutive tokens, one gap at a time (thorough / executable programs: pairs of gaps within a statement); a variant at a documented placeholder must parse; 2 programs the parser refuses (duplicate case labels) must stay refused with a comment at any placeholder; 3 programs with an @scope annotation x an ordinary comment before / after / around the annotation comment; elsewhere an unparseable variant is skipped; oracle: multiset of (rule, severity, message) and the fatal error equal to the base program's, and flows/logs/restarts/response identical; non-trivial = variant parses and differs from base; distinct = distinct (base, variant)",
 		Gen:  gen09,
 		Key:  func(c Case) string { return c.Base + "\x00" + c.Variant },
 		Run:  run,
